@@ -363,6 +363,11 @@ func matchOp(root interface{}, path, op string, operand interface{}) (bool, erro
 		if !ok || n < 0 {
 			return false, ErrInvalid
 		}
+		if fan {
+			// a fanned-out path is only in the agreement domain for
+			// comparisons with a non-null scalar operand
+			return false, ErrOutside
+		}
 		for _, b := range bs {
 			if a, ok := b.V.(bson.A); ok && int64(len(a)) == n {
 				return true, nil
